@@ -1,5 +1,5 @@
 target('c23_latency', 'engines/comp/c23_latency.cpp', extra_src=['$REPO/bluetoe/link_layer/delta_time.cpp'],
-       quick=dict(cases=100000, size=120), thorough=dict(cases=6000000, size=200))
+       quick=dict(cases=100000, size=120), thorough=dict(cases=3000000, size=200))
 # NOTE: the link-layer level harness of C23 (engines/ll) is registered by its own fragment; if that fragment calls prop('C23', ...)
 # it has to list 'c23_latency' as well (fragments are executed in path order, the later prop() wins).
 prop('C23', ['c23_latency'] + [t for t in PROPERTIES.get('C23', {}).get('targets', []) if t != 'c23_latency'], 'comp',
@@ -7,7 +7,7 @@ prop('C23', ['c23_latency'] + [t for t in PROPERTIES.get('C23', {}).get('targets
           'listen_always, three configuration sets of three configurations switched at run time), a connection interval (7.5 ms .. 4 s) and a '
           'sequence (length grows with the rapidcheck size) of plan_next_connection_event(latency 0..499, all 2^6 event flag combinations, '
           'pending instant none / 0..12 / up to 600 / around 2^15 / around 2^16 events ahead), bursts of 125..131 maximal skips that carry the '
-          '16 bit counter over its wrap, plan_next_connection_event_after_timeout, reschedule_on_pending_data with a toy radio whose '
+          '16 bit counter over its wrap, walks that land the counter exactly on 65535-d (d mostly 0..3), plan_next_connection_event_after_timeout, reschedule_on_pending_data with a toy radio whose '
           'disarm_connection_event() answer (refused / elapsed time, including exact interval multiples) is generated, reset_connection_state '
           'and change_peripheral_latency; non-trivial: at least one plan skipped events (n > 1) and at least one pull-back by k > 0 events or one '
           'listen forced by a configured condition / error while latency > 0; distinct = distinct serialised cases',
